@@ -241,3 +241,14 @@ impl<K: Key, V> BTreeMap<K, V> {
         ensures r == self@.contains_key(k.g())
     { unimplemented!() }
 }
+
+impl<K: Key, V> HashMap<K, V> {
+    #[verifier::external_body]
+    pub fn get_mut<Q: Key<G = K::G> + ?Sized>(&mut self, k: &Q) -> (r: Option<&mut V>)
+        ensures
+            match r {
+                Some(v) => old(self)@.contains_key(k.g()) && *v == old(self)@[k.g()] && final(self)@ == old(self)@.insert(k.g(), *final(v)),
+                None => !old(self)@.contains_key(k.g()) && final(self)@ == old(self)@,
+            },
+    { unimplemented!() }
+}
